@@ -26,7 +26,7 @@ RULE = ("function level: every string of length <= N over the 8-symbol alphabet 
 ASSUMPTIONS = ["'normalizes the spaces directly around it' is read as: after mapping the ellipsis back to three dots, input and output are equal "
                "once every whitespace run directly adjacent to a three-dot run is deleted on both sides"]
 
-SYM = ("a", "A", " ", ".", "'", ",", "\n", "-")
+SYM = ("a", "A", " ", ".", "'", ",", "\n", "-", '"', ")", "9")   # (the last three were appended later; lengths 6 / 7 instead of 7 / 8)
 _ADJ = re.compile(r"[ \t]*(?<![.])\.\.\.[ \t]*")  # a longer run counts as three dots + what follows (e.g. "...." = ellipsis + full stop)
 
 
@@ -146,4 +146,4 @@ def spaces(tier):
                      trail=" |\n|---|---|", modes=(False,), floors={"converted": 100}, **kw)
     for sp in (para, para0, head, cell):
         sp.class_rep = class_rep
-    return [Fn(7 if q else 8), para, para0, head, cell]
+    return [Fn(6 if q else 7), para, para0, head, cell]
